@@ -14,7 +14,9 @@ repeat-call determinism, and call histories on one object: EVERY call of a histo
 rotation / every aberration coefficient drawn from {random, exactly 0.0, 0, -0.0, stored, negated}, fixed-value grid
 search) must equal a fresh object's single call with the same effective hyper-parameters, the effective
 hyper-parameters must be the requested ones (exact stream vs the model state machine + independent tracker), and the
-parallax closed form is evaluated with the REQUESTED aberrations and rotation."""
+parallax closed form is evaluated with the REQUESTED aberrations and rotation.  Input representations: every input
+(stack, construction mask, sub-mask, samplings, energy, rotation, coefficients, aperture, upsampling, batch size, ...)
+is redrawn over container x dtype x memory layout with unchanged logical value and must give the canonical-form result."""
 import math
 
 import numpy as np
@@ -1002,9 +1004,243 @@ def run_history(ctx, drv, hc):
 
 
 def run_histories(ctx, drv, rng):
-    for idx in range(ctx.n(12, 90)):
+    for idx in range(ctx.n(12, 60)):
         hc = gen_history(rng.fork(idx), idx)
         guarded(ctx, hc, run_history, ctx, drv, hc)
+
+
+# ---------------------------------------------------------------------------------------
+# input representations: every input drawn over (container x dtype x memory layout) with unchanged logical value
+
+def _is_int(x):
+    return float(x) == int(float(x))
+
+
+def _is_f32(x):
+    return float(np.float32(x)) == float(x)
+
+
+def scalar_kinds(x, torch_ok=False):
+    ks = ["float", "np.float64", "0d-float"]
+    if _is_int(x):
+        ks += ["int", "np.int64", "np.int32", "0d-int"]
+    if _is_f32(x):
+        ks += ["np.float32"]
+    if torch_ok:
+        ks += ["torch"]
+    return ks
+
+
+def wrap_scalar(kind, x):
+    import torch
+    return {"float": lambda: float(x), "int": lambda: int(x), "np.float64": lambda: np.float64(x), "np.float32": lambda: np.float32(x),
+            "np.int64": lambda: np.int64(int(x)), "np.int32": lambda: np.int32(int(x)), "0d-float": lambda: np.array(float(x)),
+            "0d-int": lambda: np.array(int(x)), "torch": lambda: torch.tensor(float(x))}[kind]()
+
+
+def draw_scalar(rng, x, torch_ok=False):
+    return rng.choice(scalar_kinds(x, torch_ok))
+
+
+def wrap_seq(spec, xs):
+    """spec = [container, [kind per element]]"""
+    cont, kinds = spec
+    if cont == "float-array":
+        return np.array([float(x) for x in xs])
+    if cont == "int-array":
+        return np.array([int(x) for x in xs])
+    vals = [wrap_scalar(k, x) for k, x in zip(kinds, xs)]
+    return tuple(vals) if cont == "tuple" else vals
+
+
+def draw_seq(rng, xs):
+    conts = ["tuple", "list", "float-array"] + (["int-array"] * 2 if all(_is_int(x) for x in xs) else [])
+    return [rng.choice(conts), [draw_scalar(rng, x) for x in xs]]
+
+
+STACK_REPRS = ["f32-C", "f64", "fortran", "strided", "transposed", "torch"]
+MASK_REPRS = ["bool", "uint8", "int64", "float32", "fortran-bool"]
+SUB_REPRS = ["torch-bool", "np-bool", "torch-uint8", "np-uint8", "np-int32", "np-int64", "torch-int64", "int-diff", "nested-bool",
+             "nested-int", "np-float32", "fortran-bool", "strided-bool", "torch-float32"]
+
+
+def wrap_stack(kind, stack):
+    import torch
+    if kind == "f64":
+        return stack.astype(np.float64)
+    if kind in ("int64", "uint8"):
+        return stack.astype(kind)
+    if kind == "fortran":
+        return np.asfortranarray(stack)
+    if kind == "strided":
+        big = np.full((stack.shape[0], 2 * stack.shape[1], 2 * stack.shape[2]), 7.0, dtype=np.float32)
+        big[:, ::2, ::2] = stack
+        return big[:, ::2, ::2]
+    if kind == "transposed":
+        return np.ascontiguousarray(stack.transpose(2, 1, 0)).transpose(2, 1, 0)
+    if kind == "torch":
+        return torch.as_tensor(stack.copy())
+    return np.ascontiguousarray(stack, dtype=np.float32)
+
+
+def wrap_mask(kind, mask):
+    if kind == "fortran-bool":
+        return np.asfortranarray(mask)
+    return mask.astype({"bool": bool, "uint8": np.uint8, "int64": np.int64, "float32": np.float32}[kind])
+
+
+def wrap_sub(kind, sub, full):
+    import torch
+    if kind == "torch-bool":
+        return torch.as_tensor(sub.copy())
+    if kind == "np-bool":
+        return sub.copy()
+    if kind == "torch-uint8":
+        return torch.as_tensor(sub.astype(np.uint8))
+    if kind == "torch-int64":
+        return torch.as_tensor(sub.astype(np.int64))
+    if kind == "torch-float32":
+        return torch.as_tensor(sub.astype(np.float32))
+    if kind == "int-diff":
+        return full.astype(int) - (full & ~sub).astype(int)
+    if kind == "nested-bool":
+        return sub.tolist()
+    if kind == "nested-int":
+        return sub.astype(int).tolist()
+    if kind == "fortran-bool":
+        return np.asfortranarray(sub)
+    if kind == "strided-bool":
+        return np.repeat(np.repeat(sub, 2, 0), 2, 1)[::2, ::2]
+    return sub.astype({"np-uint8": np.uint8, "np-int32": np.int32, "np-int64": np.int64, "np-float32": np.float32}[kind])
+
+
+def gen_repr_case(rng, idx):
+    while True:
+        case = _gen_case_once(rng, idx)
+        lam = wavelength(case["E"])
+        mrad = rng.chance(0.6)
+        msamp = rng.choice([2, 3, 4]) if mrad else rng.choice([0.0625, 0.125])
+        rs = msamp / (lam * 1e3) if mrad else msamp
+        sxy = [rng.choice([1, 2, 3]) if rng.chance(0.6) else rng.choice([0.5, 0.75, 1.5]) for _ in range(2)]
+        amax_px = rng.uniform(1.6, 3.6)
+        sa = max(1, round(amax_px * rs * lam * 1e3))
+        amax = sa * 1e-3
+        c10 = float(round(rng.uniform(-1, 1) * 4.0 * lam / (amax * amax)))
+        c12 = float(round(rng.uniform(-1, 1) * 3.0 * lam / (amax * amax)))
+        phi = rng.choice([0.5, -0.25, 1, 0])
+        ab = rng.choice([{}, {"C10": c10}, {"C12": c12, "phi12": phi}, {"C10": c10, "C12": c12, "phi12": phi},
+                         {"defocus": c10}, {"C21": float(round(rng.uniform(-1, 1) * 6.0 * lam / amax ** 3)), "phi21": phi}])
+        case.update({"units": "mrad" if mrad else "A^-1", "msamp": msamp, "rs": rs, "sx": sxy[0], "sy": sxy[1], "semiangle": sa,
+                     "rot": rng.choice([0, 1, -2, 3, 0.5, -0.75]), "ab": ab, "crop": False, "pad": 1,
+                     "eps": rng.choice([0.1, 1]), "u": rng.weighted([(1, 2), (2, 3), (3, 3)]),
+                     "ql": None if rng.chance(0.7) else rng.choice([0.125, 0.25]), "qh": None})
+        sub = case["sub"] if case["sub"] is not None else list(range(len(case["pix"])))
+        wts, margin = aperture_weights(case, case["det"], [case["pix"][t] for t in sub])
+        if sum(wts) >= 0.5 and margin >= 1e-3:
+            break
+    n = len(sub)
+    variants = []
+    for _ in range(rng.randint(4, 6)):
+        v = {"stack": rng.choice(STACK_REPRS + (["int64", "uint8"] if case["stack_kind"] == "int" else [])),
+             "mask": rng.choice(MASK_REPRS),
+             "sub": rng.choice(SUB_REPRS) if (case["sub"] is not None or rng.chance(0.5)) else None,
+             "samp": draw_seq(rng, [1, case["sx"], case["sy"]]), "msamp": draw_seq(rng, [msamp, msamp]),
+             # energy: no np.float32 (electron_wavelength_angstrom in core/utils underflows in float32 - outside the anchors)
+             "E": rng.choice([k for k in scalar_kinds(case["E"]) if k != "np.float32"]),
+             "rot": draw_scalar(rng, case["rot"], True), "sa": draw_scalar(rng, sa),
+             "ab": {k: draw_scalar(rng, val, True) for k, val in ab.items()}, "ab_as_override": rng.chance(0.3),
+             "u": rng.choice(["int", "float", "np.int64"]), "b": [rng.randint(1, n), rng.choice(["int", "np.int64"])],
+             # per-call numerics as Python / NumPy scalars (0-d arrays are not accepted by torch arithmetic: not claimed)
+             "eps": rng.choice([k for k in scalar_kinds(case["eps"]) if not k.startswith("0d")]),
+             "pad": rng.choice(["int", "np.int64"]),
+             "ql": None if case["ql"] is None else rng.choice([k for k in scalar_kinds(case["ql"]) if not k.startswith("0d")])}
+        variants.append(v)
+    return {"repr_case": {"variants": variants, **case}}
+
+
+def run_repr_case(ctx, rc):
+    from quantem.core.datastructures import Dataset2d, Dataset3d
+    from quantem.diffractive_imaging.direct_ptychography import DirectPtychography
+    case = {k: v for k, v in rc.items() if k != "variants"}
+    gr, gc = case["det"]
+    r, c = case["scan"]
+    n_full = len(case["pix"])
+    full = np.zeros((gr, gc), dtype=bool)
+    for i, j in case["pix"]:
+        full[i, j] = True
+    rows = sorted(case["pix"])                       # stack order = row-major order of the mask
+    sub_rows = case["sub"] if case["sub"] is not None else list(range(n_full))
+    subm = np.zeros((gr, gc), dtype=bool)
+    for t in sub_rows:
+        subm[tuple(rows[t])] = True
+    stack = gen_stack(case["stack_seed"], n_full, r, c, case["stack_kind"])
+    units = (case["units"],) * 2
+    msamp = case["msamp"]
+    n = len(sub_rows)
+
+    def call(v):
+        """v = None: the canonical form (bool masks, Python floats, float32 C-contiguous stack)"""
+        W = (lambda kind, x: wrap_scalar(kind, x)) if v else None
+        vbf = Dataset3d.from_array(wrap_stack(v["stack"], stack) if v else stack, name="vbf", units=("index", "A", "A"),
+                                   sampling=wrap_seq(v["samp"], [1, case["sx"], case["sy"]]) if v else (1, float(case["sx"]), float(case["sy"])))
+        md = Dataset2d.from_array(wrap_mask(v["mask"], full) if v else full, name="mask", units=units,
+                                  sampling=wrap_seq(v["msamp"], [msamp, msamp]) if v else (float(msamp), float(msamp)))
+        ab = {k: (W(v["ab"][k], val) if v else float(val)) for k, val in case["ab"].items()}
+        as_over = bool(v and v["ab_as_override"])
+        dp = DirectPtychography.from_virtual_bfs(
+            vbf, md, energy=W(v["E"], case["E"]) if v else float(case["E"]),
+            rotation_angle=(0.0 if as_over else (W(v["rot"], case["rot"]) if v else float(case["rot"]))),
+            aberration_coefs={} if as_over else ab, semiangle_cutoff=W(v["sa"], case["semiangle"]) if v else float(case["semiangle"]),
+            soft_edges=case["soft"], crop_bf_mask=False, bf_mask_padding_px=W(v["pad"], 1) if v else 1, verbose=False)
+        if v is None or v["sub"] is None:
+            m = None if case["sub"] is None else __import__("torch").as_tensor(subm.copy())
+        else:
+            m = wrap_sub(v["sub"], subm, full)
+        kw = dict(bf_mask=m, upsampling_factor=({"int": int, "float": float, "np.int64": np.int64}[v["u"]](case["u"]) if v else case["u"]),
+                  max_batch_size=(W(v["b"][1], v["b"][0]) if v else n), deconvolution_kernel=case["alias"], q_highpass=None,
+                  q_lowpass=(None if case["ql"] is None else (W(v["ql"], case["ql"]) if v else case["ql"])),
+                  butterworth_order=case["order"], matched_filter_norm_epsilon=W(v["eps"], case["eps"]) if v else float(case["eps"]),
+                  parallax_flip_phase=case["flip"], verbose=False)
+        if as_over:
+            kw.update(override_aberration_coefs=ab, override_rotation_angle=W(v["rot"], case["rot"]))
+        dp.reconstruct(**kw)
+        return dp.corrected_stack.detach().double().numpy().copy().reshape(n, -1)
+
+    ref = call(None)
+    wts, _ = aperture_weights(case, (gr, gc), [rows[t] for t in sub_rows])
+    dev = stack[sub_rows].astype(np.float64) - stack[sub_rows].astype(np.float64).mean(axis=(1, 2), keepdims=True)
+    floor = 0.05 * maxabs(dev) / max(sum(wts), 1e-30)
+    lam = wavelength(case["E"])
+    ph = 1.0
+    if case["kernel"] == "prlx":   # float32 phase conditioning as in the main stream (batch size differs between the two calls)
+        am = case["semiangle"] * 1e-3 * 1.6
+        g = 2 * math.pi * am * (abs(case["ab"].get("C10", case["ab"].get("defocus", 0.0))) + abs(case["ab"].get("C12", 0.0)))
+        ph = max(1.0, g * case["u"] * (0.5 / case["sx"] + 0.5 / case["sy"]) / 4.0)
+    for vi, v in enumerate(rc["variants"]):
+        ctx.count()
+        for name in ("stack", "mask", "sub"):
+            ctx.dist[f"repr-{name}:{v[name]}"] += 1
+        ctx.dist[f"repr-scan-sampling:{v['samp'][0]}" + ("" if v["samp"][0].endswith("array") else "(" + ",".join(v["samp"][1][1:]) + ")")] += 1
+        ctx.dist[f"repr-rotation:{v['rot']}"] += 1
+        try:
+            got = call(v)
+        except Exception as e:  # noqa
+            ctx.pred_fail(f"repr-exception-{type(e).__name__}", "an input given in another container/dtype/memory layout with the same "
+                          "logical value makes the real code raise", {"repr_case": rc, "variant": vi}, observed=repr(e)[:300],
+                          required="the canonical-form result")
+            continue
+        ok, e = close(got, ref, TOL_BATCH * ph, floor)
+        ctx.stat_max("representation_rel", e / ph)
+        if not ok:
+            ctx.pred_fail(f"repr-{case['kernel']}", "the reconstruction changes when inputs are given in another container / dtype / "
+                          "memory layout with the same logical value", {"repr_case": rc, "variant": vi},
+                          observed={"rel_diff": e, "variant": v, **summarize(got)}, required=summarize(ref))
+
+
+def run_repr_cases(ctx, rng):
+    for idx in range(ctx.n(10, 50)):
+        rc = gen_repr_case(rng.fork(idx), idx)
+        guarded(ctx, rc, run_repr_case, ctx, rc["repr_case"])
 
 
 # ---------------------------------------------------------------------------------------
@@ -1080,6 +1316,7 @@ def run(ctx):
             case = gen_case(rng, idx)
             guarded(ctx, case, run_problem, ctx, drv, case)
         run_histories(ctx, drv, ctx.rng.fork(997))
+        run_repr_cases(ctx, ctx.rng.fork(996))
     finally:
         drv.close()
 
@@ -1097,6 +1334,8 @@ def replay(ctx, rep):
             run_aliases(ctx, drv, _rng(0))
         elif "crop_case" in case:
             run_crop_case(ctx, case["crop_case"])
+        elif "repr_case" in case:
+            run_repr_case(ctx, case["repr_case"])
         elif "history" in case:
             run_history(ctx, drv, {k: v for k, v in case.items() if k != "step"})
         elif case.get("prlx_case"):
